@@ -43,6 +43,7 @@ def Wof (strict : Bool) : World String Val String where
   priv := fun n => n.startsWith "_"
   lower := String.toLower
   noneV := .obj "None"
+  isInst := fun v => v == .obj "self"
 
 def W0 : World String Val String := Wof false
 
@@ -191,7 +192,7 @@ def handleGen (j : Json) : Json :=
   let model := if legacy && isAsync then legacyAsyncTrace W0 gt resume (0, 0) sends
                else if eager then wrapTrace W0 gt resume (0, 0) none sends
                else lazyTrace W0 gt resume pyIsNone (0, 0) none sends
-  let spec := Spec.genTrace W0 gt (Spec.flat (scriptStep sc) 64) (0, 0) none sends
+  let spec := Spec.pointwise W0 gt (Spec.flat (scriptStep sc) 64) (0, 0) none sends
   Json.mkObj [("trace", Json.arr (model.map evJson).toArray), ("spec_trace", Json.arr (spec.map evJson).toArray)]
 
 def handle (j : Json) : Json :=
@@ -205,27 +206,35 @@ def handle (j : Json) : Json :=
   let args := (arr! (fld j "args")).map valOf
   let kw := pairs (fld j "kwargs")
   let W0 := Wof (bool! (fld o "no_explicit_cast"))
-  let out := callDecl W0 ctx full (mkOpts o) args kw
   -- the specification is evaluated on the signature as the caller sees it (`spec_params`: bound first parameter removed)
   let ss := mkSig ciOpt (arr! (fld j "spec_params"))
   let sargs := (arr! (fld j "spec_args")).map valOf
   let spec := match Spec.expected W0 ss sargs kw with
     | none => Json.null
     | some e => outcomeJson e
-  -- `ret_measured`: what the return annotation itself does to the body's result, measured on the real type in
-  -- isolation (a logical combination is C09's subject; here it is the transformer `W.conv` of `parseResult`)
-  let ret := match obj? j "retval" with
-    | none => Json.null
-    | some r =>
-      let res := match obj? j "ret_measured" with
-        | some m =>
-          let tbl : Option Val := (obj? m "ok").map valOf
-          parseResult ({ W0 with conv := fun _ _ => tbl } : World String Val String) (some "ret") (valOf r)
-        | none => parseResult W0 (optStr (fld j "ret")) (valOf r)
-      match res with
-      | .ok v => jsonOf v
-      | .perr => Json.str "perr"
+  -- the body returns `retval` whatever its binding.  `ret_measured`: what the return annotation itself does to that
+  -- value, measured on the real type in isolation (a logical combination is C09's subject; here it is the transformer
+  -- of `parse_result`)
+  let retval : Val := match obj? j "retval" with
+    | some r => valOf r
+    | none => .obj "None"
+  let (Wc, retT) : World String Val String × Option String := match obj? j "ret_measured" with
+    | some m =>
+      let tbl : Option Val := (obj? m "ok").map valOf
+      ({ W0 with conv := fun t v => if t == "__ret__" then tbl else W0.conv t v }, some "__ret__")
+    | none => (W0, optStr (fld j "ret"))
+  let res := callR Wc ctx full (mkOpts o) retT (fun _ => retval) args kw
+  let (out, ret) : Outcome String Val × Json := match res with
+    | .returned b v => (.body b, jsonOf v)
+    | .resultErr b => (.body b, Json.str "perr")
+    | .perr => (.perr, Json.null)
+    | .tyerr => (.tyerr, Json.null)
+  let ret := if (obj? j "retval").isSome then ret else Json.null
+  -- coroutine functions: does the exception (if any) surface at the call or at the await?
+  let atCall := match coroCall (bool! (fld j "eager")) Wc ctx full (mkOpts o) retT (fun _ => retval) args kw with
+    | .raisedAtCall => true
+    | .awaited _ => false
   Json.mkObj [("model", outcomeJson out), ("spec", spec), ("ret", ret), ("decl_ok", Json.bool (declOk full (mkOpts o))),
-              ("reserve", Json.bool (firstReserve ctx full))]
+              ("reserve", Json.bool (firstReserve ctx full)), ("raised_at_call", Json.bool atCall)]
 
 def main : IO Unit := serve handle
